@@ -22,7 +22,7 @@ ASSUMPTIONS = ["targets are schedulers on the caller's running stack (the statem
                "duplicates inside one argument list of new doers are not generated ('already present' refers to the scheduler's list)",
                "no exceptions: doers do not raise in this check (C01/C02 cover that)"]
 PROBES = ["extend_and_remove_same_cycle", "remove_not_yet_due", "remove_completed", "remove_self", "remove_ancestor",
-          "remove_dodoer_with_children", "extend_on_dodoer", "extend_present", "extend_dodoer_with_children", "remove_stranger"]
+          "remove_dodoer_with_children", "added_doer_recurred_next_pass", "extend_on_dodoer", "extend_present", "extend_dodoer_with_children", "remove_stranger"]
 BOUNDS = dict(quick=dict(nodes=10, depth=3, steps=6), thorough=dict(nodes=16, depth=4, steps=10))
 TIERS = dict(quick=dict(cases=20000, wall=40.0), thorough=dict(cases=1200000, wall=420.0))
 
@@ -108,6 +108,7 @@ def check(run, res):
     i = 0
     n = len(tr)
     did_ext = did_rm_alive = False
+    first_recur_due = []      # (doer added by extend and still running after it, scheduler, trace index of the return)
     ext_cycles, rm_cycles = set(), set()
     while i < n:
         e = tr[i]
@@ -162,6 +163,15 @@ def check(run, res):
                 if x[0] == "recur":
                     res.violate("extend-recur-inside", "doer %d recurred inside extend()" % x[1])
                     return
+                if x[0] in ("clean", "cease", "abort", "exit") and x[1] in allowed and not (
+                        nodes[x[1]]["kind"] != "dodoer" and nodes[x[1]].get("enter") == "ret" and x[0] in ("clean", "exit")):
+                    # only a doer that returns before its first yield may finish inside the call that adds it
+                    res.violate("extend-closed-inside", "during extend(%s) on %d: the added doer %d got %r inside the call although it "
+                                "does not finish in its enter" % (arg, sid, x[1], x[0]))
+                    return
+            for x in new:
+                if nodes[x]["kind"] == "dodoer" or nodes[x].get("enter") == "ok":
+                    first_recur_due.append((x, sid, j))
             for x in new:
                 cyc_of[x] = cyc
             if new:
@@ -228,6 +238,25 @@ def check(run, res):
                 return
             del cyc_of[e[1]]
         i += 1
+    # a doer added at runtime recurs in the scheduler's next pass (unless it is closed before its turn)
+    for x, sid, j in first_recur_due:
+        if sid == -1:
+            p1 = next((k for k in range(j, n) if tr[k][0] == "cycle_begin"), None)
+            p2 = None if p1 is None else next((k for k in range(p1, n) if tr[k][0] == "cycle_end"), None)
+        else:
+            p1 = next((k for k in range(j, n) if tr[k][0] == "recur" and tr[k][1] == sid), None)
+            p2 = None if p1 is None else next((k for k in range(p1, n) if tr[k][0] == "recur_end" and tr[k][1] == sid), None)
+        if p1 is None or p2 is None:
+            continue        # the scheduler never completed another pass
+        res.comparisons += 1
+        if any(tr[k][0] == "recur" and tr[k][1] == x for k in range(p1, p2)):
+            res.probes["added_doer_recurred_next_pass"] += 1
+            continue
+        if any(tr[k][0] in ("cease", "exit", "abort") and len(tr[k]) > 1 and tr[k][1] == x for k in range(j, p2)):
+            continue        # removed / force-closed before its turn
+        res.violate("extend-no-recur-next-pass", "doer %d added to scheduler %d by extend did not recur in the scheduler's next pass "
+                    "(trace %d..%d)" % (x, sid, p1, p2))
+        return
     # final membership
     res.comparisons += 1
     if run.final["doers"] != member[-1]:
